@@ -18,33 +18,46 @@ LEVEL_TEXT = ("Proof, for all inputs, over the executable Lean model (Model/Grou
               "key's rows taken in original order - for numeric, fixed-string and indexed-string targets (strings bytewise "
               "lexicographic), sorted or not, with or without a truthful hint (which is shown to be unobservable), with no "
               "out-of-bounds access and no spurious error; counts sum to the row count; Session.aggregate_* returns the same "
-              "values on an ascending index; the specification determines the result. The theorems assume that stacking the key "
-              "columns does not change how their values compare (true whenever all key columns have one dtype - proved as the "
-              "unconditional `groupby_eq_spec` family); mixed dtypes are the recorded finding D20 (witness theorems).")
+              "values on an ascending index; the specification determines the result. Since fix D20 (groupby compares every key "
+              "column in its own dtype) the theorems hold for key columns of ANY mix of kinds - numbers of any dtype, fixed and "
+              "indexed strings - with no hypothesis about the dtypes: `groupby_eq_spec`, `groupby_count_eq_spec`, "
+              "`drop_duplicates_eq_spec`, `groupby_indexed_eq_spec`, `sorted_hint_irrelevant`; the `_partial` forms registered while "
+              "D20 was open (hypothesis: stacking the key columns does not change how their values compare) are kept as "
+              "corollaries, `stacked_eq_columnwise_on_faithful_keys` proves that on such keys (one dtype in particular) the "
+              "repaired groupby returns exactly what the stacked one returned, and the witness theorems show the as-found code "
+              "failing and the repaired code succeeding on D20's inputs.")
 LEVEL_NOTE = ("Trusted: Lean kernel; the hand-written model is validated against the real code by the differential run (exhaustive "
               "frames up to 4/6 rows, all string sequences up to 3/4 rows for string min/max, seeded random frames to 3000 rows, "
-              "int64 keys beyond 2^53, mixed key dtypes), not verified against the Python text; numpy's stable argsort is modelled by "
-              "List.mergeSort, numpy's promotion when stacking key columns by a per-column cast (float64 rounding / decimal text) "
-              "chosen by the harness from the dtypes; fixed strings are rank-coded (the kernels only compare), so the theorems "
-              "speak about any totally ordered value type through Int. The span kernels' own theorems are C08's "
-              "(Props/C08.lean), reused here. The theorems are about the tree with fix D18 and NC08b applied; Session.aggregate_* "
+              "exhaustive two-key frames over every pairing of key dtypes incl. int64 beyond 2^53 next to float64 and integers whose "
+              "text order differs from their numeric order next to fixed / indexed strings, negative numbers), not verified against "
+              "the Python text; numpy's stable argsort is modelled by List.mergeSort; fixed and indexed strings are rank-coded per "
+              "column (the code only compares values of one column with each other), so the theorems speak about any totally "
+              "ordered value type through Int, each column in its own order. The as-found stacking (np.asarray of all key columns, "
+              "finding D20) stays in the model as `groupbyStacked`; the driver answers every case for both, the promotion being "
+              "rendered as a per-column value table computed with numpy itself, and the stacked answer is accepted only while D20 "
+              "is listed open (a `fixed` entry suppresses nothing: the as-found behaviour is then a disagreement AND a spec "
+              "violation). The span kernels' own theorems are C08's (Props/C08.lean; the fold of per-column spans is "
+              "Lemmas/SpansEntryN.lean), reused here. The theorems are about the tree with fix D18, NC08b and D20 applied; Session.aggregate_* "
               "with an IndexedStringField index needs fix NC07a and is covered by the correspondence only (the theorem is for "
               "numeric indexes).")
-RULE = ("corpus (D18, D20 x3, empty frame, text-ordered ints); exhaustive: every key frame with 1 key column over {0,1,2} and <= n "
-        "rows and 2 key columns over {0,1}^2 and <= m rows (quick n=4,m=3; thorough n=6,m=4) x {count, distinct/drop_duplicates, "
-        "min, max, first, last} x target kind rotating (thorough: all of) numeric/fixed/indexed, hint on when the frame is sorted; "
+RULE = ("corpus (D18, D20 x3 + mixed-dtype keys x8, empty frame, text-ordered ints); exhaustive: every key frame with 1 key column "
+        "over {0,1,2} and <= n rows and 2 key columns over {0,1}^2 and <= m rows (quick n=4,m=3; thorough n=6,m=4) x {count, "
+        "distinct/drop_duplicates, min, max, first, last} x target kind rotating (thorough: all of) numeric/fixed/indexed, hint on "
+        "when the frame is sorted; the two key columns rotate through 9 dtype pairings (same dtype; int64 at 2^53, 2^53+1 next to "
+        "float64; integers 9, 10 / -3, 2 / -10, -9 next to S3 and indexed strings, either column first; float64 next to strings); "
         "every sequence of <= 3 (thorough 4) strings from a 6-string alphabet (prefixes, empty, trailing blank, non-ASCII) as one "
         "group and as two groups for string min/max; every Session.aggregate_* fn on every index over {0,1,2} with <= 4 rows; "
-        "seeded random frames (1-3 key columns of int32/int64/float64/S3/indexed string incl. mixed, values beyond 2^53, up to 60 / 3000 rows, "
-        "sorted with hint / sorted without / unsorted) and a malformed stream (ragged keys, no keys, aggregate without target / "
+        "seeded random frames (1-3 key columns of int32/int64/float64/S3/indexed string, 45% of the compound keys of mixed dtypes: "
+        "int/float, int/string, float/string, int/float/string; int64 beyond 2^53, integers of different digit counts and negative "
+        "numbers next to strings; up to 60 / 3000 rows, sorted with truthful hint / sorted without / unsorted) and a malformed stream (ragged keys, no keys, aggregate without target / "
         "wrong length; a few untruthful hints, compared with the model only). Non-trivial = at least two groups and at least one "
         "group with two or more rows; distinct = distinct case dict.")
 ASSUMPTIONS = ["all columns of a dataframe have the same number of rows (ragged key columns are only run as an error case)",
                "np.argsort(kind='stable') is a stable sort (modelled by List.mergeSort)",
-               "numpy/numba compare int32/int64/float64 values and fixed-length byte strings as the total order the model uses on Int "
-               "(fixed strings rank-coded bytewise; float payloads integer-valued, no NaN)",
-               "np.asarray([...]) of key columns promotes as rendered by the harness' cast table (identity for one dtype, float64 "
-               "rounding for int64 with float64, decimal text for integers with byte strings)",
+               "numpy compares int32/int64/float64 values, fixed-length byte strings and (np.asarray of) Python strings as the total "
+               "order the model uses on Int (strings rank-coded bytewise per column; float payloads integer-valued, no NaN)",
+               "only for the as-found variant `groupbyStacked`: np.asarray([...]) of key columns promotes as numpy does in the harness "
+               "process (value table per column)",
                "h5py stores and returns arrays faithfully; create_like gives a field of the same type",
                "hand-written Lean model validated by this differential run, not verified against the Python text"]
 TRUSTED = ["Lean 4.33 kernel", "axioms: propext, Classical.choice, Quot.sound only (audited per theorem)",
@@ -55,7 +68,11 @@ EXPLANATION = ""
 STRS = ["", "a", "a ", "ab", "b", "aé"]          # prefixes, empty, trailing blank, non-ASCII (2 utf-8 bytes >= 0x80)
 FIXED = ["", "a", "a ", "ab", "b", "a\xe9", "\xe9"]    # latin-1 renderings of S3 byte strings
 BIG = [2 ** 53 - 1, 2 ** 53, 2 ** 53 + 1, 2 ** 53 + 2, 2 ** 53 + 3, 2 ** 62, 2 ** 62 + 1, -2 ** 53 - 1, -2 ** 53]
-DEC = [0, 1, 2, 9, 10, 11, 19, 100, 101]
+DEC = [0, 1, 2, 9, 10, 11, 19, 100, 101, -1, -2, -9, -10, -100]      # different digit counts, negative numbers
+# dtype pairings of the exhaustive two-key frames and the values standing for the alphabet {0, 1} in a numeric column
+PAIRS = [("int64", "int64"), ("int64", "float64"), ("int32", "indexed"), ("S3", "int64"), ("indexed", "indexed"),
+         ("float64", "S3"), ("int64", "S3"), ("indexed", "int32"), ("float64", "int64")]
+NEXT_TO_STR = [(9, 10), (-3, 2), (-10, -9), (2, 10)]
 AGGS = ["count", "distinct", "min", "max", "first", "last"]
 
 
@@ -133,9 +150,22 @@ def gen_cases(tier, rng):
             for agg in AGGS:
                 for tk in ([kinds[cnt % 3]] if quick or agg in ("count", "distinct") else kinds):
                     cnt += 1
-                    kd = ["int32", "int64", "S3", "float64", "indexed"][cnt % 5] if ncols == 1 else ["int64", "int32", "indexed"][cnt % 3]
-                    keys = [keycol(kd, [FIXED[x + 1] for x in c] if kd == "S3" else [STRS[x + 1] for x in c] if kd == "indexed" else c)
-                            for c in cols]
+                    kds = [["int32", "int64", "S3", "float64", "indexed"][cnt % 5]] if ncols == 1 else list(PAIRS[cnt % len(PAIRS)])
+                    has_s = any(d in ("S3", "indexed") for d in kds)
+                    keys = []
+                    for kd, c in zip(kds, cols):
+                        if kd == "S3":
+                            vals = [FIXED[x + 1] for x in c]
+                        elif kd == "indexed":
+                            vals = [STRS[x + 1] for x in c]
+                        elif ncols == 2 and has_s:            # a number next to a string: text order differs from numeric order
+                            lo, hi = NEXT_TO_STR[(cnt // len(PAIRS)) % len(NEXT_TO_STR)]
+                            vals = [(lo, hi)[x] for x in c]
+                        elif ncols == 2 and kd == "int64" and "float64" in kds:   # int64 next to float64: beyond 2^53
+                            vals = [2 ** 53 + x for x in c]
+                        else:
+                            vals = c
+                        keys.append(keycol(kd, vals))
                     tg = [mk_target(tk, n, cnt)]
                     srt = is_sorted_rows(keys)
                     cases.append(mk_groupby(keys, agg, tg, srt and cnt % 2 == 0, cnt))
@@ -204,25 +234,36 @@ def rand_groupby(rng, t, quick):
     else:
         n = rng.choice([0, 1, 2, 3, 5, 8, 13, 21, 40, 60, 100, 100, 300]) if t % 40 else rng.choice([1000, 3000])
     ncols = rng.choice([1, 1, 2, 2, 3])
-    mixed = rng.random() < 0.3
+    mixed = rng.random() < 0.45
     if ncols == 1 or not mixed:
         d = rng.choice(["int32", "int64", "float64", "S3", "indexed"])
         dts = [d] * ncols
     else:
-        fam = rng.choice(["intfloat", "ints", "intstr"])
+        fam = rng.choice(["intfloat", "intfloat", "ints", "intstr", "intstr", "floatstr", "all"])
+        st = rng.choice(["S3", "indexed"])
         if fam == "intfloat":
             dts = [rng.choice(["int64", "float64", "int32"]) for _ in range(ncols)]
         elif fam == "ints":
             dts = [rng.choice(["int64", "int32"]) for _ in range(ncols)]
-        else:
-            st = rng.choice(["S3", "indexed"])
+        elif fam == "intstr":
             dts = [rng.choice(["int64", st, "int32"]) for _ in range(ncols)]
+        elif fam == "floatstr":
+            dts = [rng.choice(["float64", st]) for _ in range(ncols)]
+        else:
+            dts = [rng.choice(["int64", "float64", st]) for _ in range(ncols)]
+        if len(set(dts)) == 1:                 # make the family's point: at least two different dtypes
+            a, b = {"intfloat": ("float64", "int64"), "ints": ("int32", "int64"), "intstr": (st, "int64"),
+                    "floatstr": (st, "float64"), "all": (st, "int64")}[fam]
+            dts[0] = a if dts[0] != a else b
     has_s = "S3" in dts or "indexed" in dts
     has_f = "float64" in dts
     keys = []
     for d in dts:
         card = rng.choice([1, 2, 3, 5, max(1, n // 2 + 1)])
-        pk = "dec" if has_s and d not in ("S3", "indexed") else ("big" if d == "int64" and rng.random() < (0.6 if has_f else 0.25) else "small")
+        if has_s and d not in ("S3", "indexed") and not (d == "int64" and has_f and rng.random() < 0.3):
+            pk = "dec"       # numbers next to strings: different digit counts, negative numbers
+        else:
+            pk = "big" if d == "int64" and rng.random() < (0.6 if has_f else 0.25) else "small"
         keys.append(keycol(d, rand_key_values(rng, d, n, card, pk)))
     shape = rng.choice(["unsorted", "unsorted", "sorted", "sorted_hint"])
     tcols = [mk_target(rng.choice(["numeric", "fixed", "indexed"]), n, t, rng) for _ in range(rng.choice([1, 1, 2]))]
@@ -269,19 +310,64 @@ def malformed(rng, m):
 # ------------------------------------------------------------------------------------------------------------------
 
 def cast_tags(dtypes):
+    """the kind of promotion np.asarray([...]) applies to each column (a label for the evidence's distribution)"""
     if any(d.startswith("S") or d == "indexed" for d in dtypes):
-        return ["id" if d.startswith("S") or d == "indexed" else "dec" for d in dtypes]
+        return ["id" if d.startswith("S") or d == "indexed" else "text" for d in dtypes]
     if any(d.startswith("float") for d in dtypes):
         return ["f64" if d == "int64" else "id" for d in dtypes]
     return ["id"] * len(dtypes)
 
 
-def cast_py(tag, x):
-    if tag == "f64":
-        return float(x)
-    if tag == "dec":
-        return str(x).encode()
-    return x
+def model_values(k):
+    """a key column as the model sees it: numbers as they are, strings rank-coded in the column's own bytewise order"""
+    if is_str_key(k):
+        tab = rank_table(k["data"], kenc(k))
+        return [tab.index(v.encode(kenc(k))) for v in k["data"]]
+    return list(k["data"])
+
+
+_TABLES = {}
+
+
+def stack_tables(keys):
+    """What the AS-FOUND groupby's np.asarray([col0, col1, ...]) does to each key column, computed with numpy itself: per
+    column a table [model value, rank of the promoted value among the column's promoted values] (equal promoted values get
+    equal ranks, the promoted dtype's own order decides the ranks). None when nothing is promoted (one key, one dtype)."""
+    dts = [k["dtype"] for k in keys]
+    if len(set(dts)) <= 1 or len(set(len(k["data"]) for k in keys)) != 1:
+        return None
+    from checks import lib
+    ck = lib.canon(keys)
+    if ck not in _TABLES:
+        import numpy as np
+        cols = []
+        for k in keys:
+            if k["dtype"] == "indexed":
+                cols.append(list(k["data"]))
+            elif k["dtype"].startswith("S"):
+                cols.append(np.array([v.encode("latin-1") for v in k["data"]], dtype=k["dtype"]))
+            else:
+                cols.append(np.array(k["data"], dtype=k["dtype"]))
+        st = np.asarray(cols)
+        out = []
+        for j, k in enumerate(keys):
+            codes = np.searchsorted(np.unique(st[j]), st[j]).tolist() if st.shape[1] else []
+            out.append(sorted(set(zip(model_values(k), codes))))
+        if len(_TABLES) > 20000:
+            _TABLES.clear()
+        _TABLES[ck] = out
+    return _TABLES[ck]
+
+
+def d20_shape(case):
+    """the promotion of the as-found stacking changes how the values of some key column compare: two different values of
+    the column become equal, or their order flips (the table is not strictly increasing in the column's own order)"""
+    if case["op"] != "groupby" or case.get("_malformed"):
+        return False
+    tabs = stack_tables(case["keys"])
+    if not tabs:
+        return False
+    return any(not a[1] < b[1] for tab in tabs for a, b in zip(tab, tab[1:]))
 
 
 def rank_table(values, enc="latin-1"):
@@ -290,14 +376,13 @@ def rank_table(values, enc="latin-1"):
 
 def to_model(case):
     if case["op"] == "groupby":
-        tags = cast_tags([k["dtype"] for k in case["keys"]])
+        tabs = stack_tables(case["keys"])
         keys = []
-        for k, tag in zip(case["keys"], tags):
-            if is_str_key(k):
-                tab = rank_table(k["data"], kenc(k))
-                keys.append({"cast": "id", "data": [tab.index(v.encode(kenc(k))) for v in k["data"]]})
+        for j, k in enumerate(case["keys"]):
+            if tabs:      # only the as-found variant (`stacked`) looks at the table
+                keys.append({"cast": "table", "table": [list(r) for r in tabs[j]], "data": model_values(k)})
             else:
-                keys.append({"cast": tag, "data": k["data"]})
+                keys.append({"cast": "id", "data": model_values(k)})
         targets = []
         for t in case["targets"]:
             if t["kind"] == "numeric":
@@ -555,15 +640,7 @@ def match_finding(case, io, mode):
     column compare (two different values become equal, or their order flips). Only such inputs are assigned to D20."""
     if case["op"] != "groupby" or case.get("_malformed") or "err" in io:
         return None
-    tags = cast_tags([k["dtype"] for k in case["keys"]])
-    for k, tag in zip(case["keys"], tags):
-        if tag == "id":
-            continue
-        vals = sorted(set(k["data"]))
-        for a, b in zip(vals, vals[1:]):
-            if not cast_py(tag, a) < cast_py(tag, b):
-                return "D20"
-    return None
+    return "D20" if d20_shape(case) else None
 
 
 def decode_model(case, m):
@@ -592,7 +669,7 @@ def decode_model(case, m):
     return {"keys": keys, "vals": vals}
 
 
-def compare(case, io, mo, mode):
+def _compare(case, io, mo):
     if "err" in io or "err" in mo:
         a, b = io.get("err"), mo.get("err")
         return None if a == b else f"impl err={a} ({io.get('msg', '')}) model err={b}"
@@ -601,6 +678,27 @@ def compare(case, io, mo, mode):
         if f in m and io.get(f) != m[f]:
             return f"{f}: impl={io.get(f)} model={m[f]}"
     return None
+
+
+_OPEN = {}
+
+
+def d20_open():
+    if "D20" not in _OPEN:
+        from checks import lib
+        _OPEN["D20"] = any(f["id"] == "D20" and f["status"] == "open" for f in lib.load_findings(PROPERTY))
+    return _OPEN["D20"]
+
+
+def compare(case, io, mo, mode):
+    """The implementation must answer like the repaired model (`groupbyCols`). While finding D20 is listed OPEN, an input of
+    D20's shape may instead be answered like the as-found variant (`groupbyStacked`, under `stacked`): the spec check then
+    reports it under D20. Once D20 is `fixed` the as-found answer is a disagreement (and a spec violation)."""
+    why = _compare(case, io, mo)
+    if why and isinstance(mo.get("stacked"), dict) and d20_open() and d20_shape(case):
+        if _compare(case, io, mo["stacked"]) is None:
+            return None
+    return why
 
 
 def nontrivial(case, mo):
@@ -628,9 +726,13 @@ def classify(case, mo):
         tags.append(("hint" if srt else "untruthful-hint") if case["hint"] else ("sorted" if srt else "unsorted"))
         for t in case["targets"]:
             tags.append("target:" + t["kind"])
-        ct = cast_tags([k["dtype"] for k in case["keys"]])
-        if any(c != "id" for c in ct):
-            tags.append("cast:" + "+".join(sorted(set(ct))))
+        dts = sorted(set("str" if is_str_key(k) else k["dtype"].rstrip("23468") for k in case["keys"]))
+        if len(set(k["dtype"] for k in case["keys"])) > 1:
+            tags.append("mixed-keys:" + "+".join(dts))
+        if d20_shape(case):
+            tags.append("d20-shape(promotion would change comparisons)")
+        if any(isinstance(x, int) and x < 0 for k in case["keys"] for x in k["data"]) and "str" in dts and len(dts) > 1:
+            tags.append("negative-next-to-string")
         if any(isinstance(x, int) and abs(x) > 2 ** 53 for k in case["keys"] for x in k["data"]):
             tags.append("beyond-2^53")
     if mo and "err" in mo:
